@@ -88,9 +88,15 @@ Qed.
 
 Definition hook_ok (h : hook) : Prop := match h with HSet _ k _ => k <> "M" | _ => True end.
 
+Lemma premove_keys_ok k ps : pkeys_ok ps -> pkeys_ok (premove k ps).
+Proof.
+  induction ps as [|[k' v'] ps IH]; intros H; cbn; [constructor|]. inversion H as [|? ? H1 H2]; subst.
+  destruct (String.eqb k k'); [now apply IH|constructor; [exact H1|now apply IH]].
+Qed.
+
 Lemma run_hook_keys s h o t ps f : hook_ok h -> pkeys_ok ps -> pkeys_ok (run_hook s h o t ps f).
 Proof.
-  destruct h; cbn; intros Hh Hp; [exact Hp|now apply pset_keys_ok|].
+  destruct h; cbn; intros Hh Hp; [exact Hp|now apply pset_keys_ok| |now apply premove_keys_ok].
   apply pset_keys_ok; [discriminate|exact Hp].
 Qed.
 
